@@ -631,9 +631,22 @@ def replay_file(path, hs, prop):
 
 
 def _unjson(x):
+    """inverse of _jsonable: float lists become arrays, integer lists (choices, permutations) stay lists of ints"""
     if isinstance(x, dict):
         return {k: _unjson(v) for k, v in x.items()}
     if isinstance(x, list):
+        flat = []
+
+        def walk(v):
+            if isinstance(v, list):
+                for w in v:
+                    walk(w)
+            else:
+                flat.append(v)
+
+        walk(x)
+        if flat and all(isinstance(v, bool) or isinstance(v, int) for v in flat):
+            return x
         try:
             return np.array(x, dtype=float)
         except (ValueError, TypeError):
